@@ -216,6 +216,7 @@ class FakeConn:
 
 def make_sched_run(cfg):
     from vf import sched as S
+    from vf.memnet import MemNet
     install_shims()
     from Pyro5 import server, config
     watch = S.watch_functions(server.Daemon._getInstance)
@@ -225,12 +226,15 @@ def make_sched_run(cfg):
         sch = S.Scheduler(chooser, watch=watch)
         sch.install()
         violations = []
+        d = net = None
         try:
             reg = Registry()
             cls = make_class(cfg["mode"], cfg["shape"], cfg["creator"], reg, server)
-            d = server.Daemon.__new__(server.Daemon)
-            d._pyroInstances = {}
-            d.create_single_instance_lock = server.threading.Lock()
+            # a real daemon (multiplex transport on the in-memory network; its loop is not run: _getInstance is driven directly)
+            config.SERVERTYPE = "multiplex"
+            net = MemNet()
+            net.install()
+            d = server.Daemon(host="h", port=1)
             conns = [FakeConn() for _ in range(cfg["threads"])] if not cfg.get("same_conn") else [FakeConn()] * cfg["threads"]
             results = {}
 
@@ -271,6 +275,13 @@ def make_sched_run(cfg):
                     "sample": {"cfg": cfg, "results": sorted(results.items())}}
         finally:
             sch.teardown()
+            try:
+                if d is not None:
+                    d.close()
+            except Exception:
+                pass
+            if net is not None:
+                net.uninstall()
     return run_fn
 
 
@@ -307,7 +318,7 @@ def run(ctx):
              "threads making concurrent first calls; distinct = (mode, shape, creator, history) cases" % (2 if quick else 3, maxlen),
         nontrivial=len(total.states))
     return {"violations": total.violations, "coverage": cov,
-            "assumptions": ["schedule part drives Daemon._getInstance directly on a transport-less daemon shell with stand-in connection objects"]}
+            "assumptions": ["schedule part drives Daemon._getInstance of a real daemon directly, with stand-in connection objects"]}
 
 
 def replay(ctx, payload):
